@@ -1,0 +1,24 @@
+//go:build verif
+
+// Contracts for the deductive verifier in /verif (comment-only file; see /verif/DESIGN.md).
+package addpartitionstotxn
+
+//@ property C04
+
+// Wire layout per version, from the Kafka protocol definition of this API (field order, types and the versions each field
+// exists in); the encoders and decoders are compiled from the struct tags, so the tags are checked against it.
+//@ wire Request
+//@   layout v0..v2 TransactionalID string, ProducerID int64, ProducerEpoch int16, Topics []RequestTopic
+//@   layout v3 _ struct{} @-1, TransactionalID string, ProducerID int64, ProducerEpoch int16, Topics []RequestTopic
+//@ wire RequestTopic
+//@   layout v0..v2 Name string, Partitions []int32
+//@   layout v3 _ struct{} @-1, Name string, Partitions []int32
+//@ wire Response
+//@   layout v0..v2 ThrottleTimeMs int32, Results []ResponseResult
+//@   layout v3 _ struct{} @-1, ThrottleTimeMs int32, Results []ResponseResult
+//@ wire ResponseResult
+//@   layout v0..v2 Name string, Results []ResponsePartition
+//@   layout v3 _ struct{} @-1, Name string, Results []ResponsePartition
+//@ wire ResponsePartition
+//@   layout v0..v2 PartitionIndex int32, ErrorCode int16
+//@   layout v3 _ struct{} @-1, PartitionIndex int32, ErrorCode int16
